@@ -188,7 +188,7 @@ struct Ctx {
     int k = -1;
     const char* id = "";
     uint64_t evals = 0, nontrivial = 0, fails = 0, hangs = 0, sigs = 0;
-    bool capped = false, dump = false;
+    bool capped = false, dump = false; uint64_t dumped = 0, obs_hash = 0;
     std::unordered_set<uint64_t>* seen = nullptr;
     std::map<std::string, uint64_t> routes;
     // current run-time point (formatted lazily)
@@ -266,7 +266,7 @@ struct Ctx {
                                const char* what = "", bool signed_zero = false) {
         bool nt = init ? memcmp(exp, init, n * sizeof(T)) != 0 : !all_equal(exp, n) || n == 1;
         count(hash_bytes(exp, n * sizeof(T)), nt);
-        if (dump) dump_vals(what, obs, n);
+        if (dump) dump_vals(what, obs, n, (const long double*)nullptr);
         for (size_t i = 0; i < n; ++i)
             if (!same(obs[i], exp[i], signed_zero)) {
                 size_t bad = 0; for (size_t j = i; j < n; ++j) bad += !same(obs[j], exp[j], signed_zero);
@@ -281,7 +281,7 @@ struct Ctx {
                                 const char* what = "") {
         bool nt = false; for (size_t i = 0; i < n && !nt; ++i) nt = exp[i] != 0.0L;
         count(hash_bytes(exp, n * sizeof(long double)), nt || n == 1);
-        if (dump) dump_vals(what, obs, n);
+        if (dump) dump_vals(what, obs, n, bound);
         for (size_t i = 0; i < n; ++i) {
             long double o = (long double)obs[i], d = o - exp[i]; if (d < 0) d = -d;
             bool bad = !(d <= bound[i]);
@@ -311,13 +311,21 @@ struct Ctx {
         }
         return true;
     }
-    template <class T> void dump_vals(const char* name, const T* p, size_t n) {
-        fprintf(out, "D %d %s %s %zu", k, *name ? name : "r", tname<T>(), n);
-        const unsigned char* c = (const unsigned char*)p;
+    // FX_DUMP=1: observed values of the first FX_DUMP_MAX evaluations of a case (with their own tolerance, 0 = exact) for the
+    // cross-configuration comparison of C06; exact evaluations additionally feed a running hash over all of them
+    template <class T> void dump_vals(const char* name, const T* p, size_t n, const long double* bound) {
+        if (!bound) obs_hash = hash_bytes(p, n * sizeof(T), obs_hash + 0x9e37);
+        if (dumped >= 24 || n > 4096) return;
+        ++dumped;
+        char nm[48]; size_t q = 0; for (const char* c = (*name ? name : "r"); *c && q < 47; ++c) nm[q++] = (*c == ' ' ? '_' : *c); nm[q] = 0;
+        fprintf(out, "D %d %s %s %zu ", k, nm, tname<T>(), n);
+        for (size_t i = 0; i < n; ++i) fprintf(out, "%s%.21Lg", i ? "," : "", (long double)real_part(p[i]));
         fputc(' ', out);
-        for (size_t i = 0; i < n * sizeof(T); ++i) fprintf(out, "%02x", c[i]);
+        if (bound) for (size_t i = 0; i < n; ++i) fprintf(out, "%s%.6Lg", i ? "," : "", bound[i]); else fputc('x', out);
         fputc('\n', out);
     }
+    template <class T> static long double real_part(const T& v) { return (long double)v; }
+    template <class T> static long double real_part(const std::complex<T>& v) { return (long double)v.real() + 3 * (long double)v.imag(); }
     // run one evaluation under the guard; on signal/hang/exception record it as a failure of the case
     template <class F> bool run(F&& f) {
         int s = 0; bool threw = false; std::string what;
@@ -354,10 +362,11 @@ static inline int fx_main(int argc, char** argv, const CaseEntry* cases, int nca
         if (k < from) continue;
         if (only >= 0 && k != only) continue;
         fx.k = k; fx.id = cases[c].id; fx.evals = fx.nontrivial = fx.fails = fx.hangs = fx.sigs = 0; fx.capped = false;
-        fx.routes.clear(); fx.pt("");
+        fx.routes.clear(); fx.pt(""); fx.dumped = 0; fx.obs_hash = 0;
         fprintf(out, "B %d\n", k); fflush(out);
         fx.run([&] { cases[c].fn(fx); });
         for (auto& r : fx.routes) fprintf(out, "R %d %s %llu\n", k, r.first.c_str(), (unsigned long long)r.second);
+        if (fx.dump) fprintf(out, "G %d %016llx\n", k, (unsigned long long)fx.obs_hash);
         fprintf(out, "P %d %llu %llu %llu %llu %llu %d\n", k, (unsigned long long)fx.evals, (unsigned long long)fx.nontrivial,
                 (unsigned long long)fx.fails, (unsigned long long)fx.hangs, (unsigned long long)fx.sigs, (int)fx.capped);
         fflush(out);
